@@ -193,6 +193,21 @@ impl LayerPeriod { fn block(&mut self, start: DbUnits, stop: DbUnits, src: &Ptr<
 impl Track { fn cut(&mut self, start: DbUnits, stop: DbUnits, src: &TrackCross) -> TrackResult<()>; }
 impl Track { fn set_net(&mut self, at: DbUnits, assn: &Assign) -> TrackResult<()>; }
 """
+GDSR_PRELUDE = """
+// byteorder::ReadBytesExt on `self.source` (byte-level IO: external)
+impl GdsReader { fn source_read_u16(&mut self) -> GdsResult<u16>; fn source_read_u8(&mut self) -> GdsResult<u8>; }
+// num_traits::FromPrimitive (derived): the numbering of the two enums (its own tie: Gen/GdsTablesGen.v, C02_numbering_is_spec)
+impl GdsRecordType { fn from_u8(n: u8) -> Option<GdsRecordType>; }
+impl GdsDataType { fn from_u8(n: u8) -> Option<GdsDataType>; }
+// the typed reads of read.rs (byte-level IO: external); `Result<_, io::Error>` is read like GdsResult
+impl GdsReader {
+    fn read_str(&mut self, len: u16) -> GdsResult<String>;
+    fn read_bytes(&mut self, len: u16) -> GdsResult<Vec<u8>>;
+    fn read_i16(&mut self, len: u16) -> GdsResult<Vec<i16>>;
+    fn read_i32(&mut self, len: u16) -> GdsResult<Vec<i32>>;
+    fn read_f64(&mut self, len: u16) -> GdsResult<Vec<f64>>;
+}
+"""
 UNITS = [
     {"name": "raw", "out": "KernelsGen.v", "files": FILES, "alias_only": ALIAS_ONLY, "targets": TARGETS, "extern_args": EXTERN,
      "xops": False},
@@ -342,10 +357,39 @@ UNITS = [
      "foreign": {"Track", "AssignKey", "LayerKey", "String", "Instance", "Layout", "Library"},
      "extern": {"RawExporter::track_cross_xy", "RawExporter::export_track", "ValidStack::via_from"},
      "result_aliases": {"LayoutResult", "TrackResult"}, "skip_recv": {"self.ctx"}},
+    # ---- fourth part of the subset (round 4): the two file-format codecs.  gds21/src/write.rs: the trait `Encode` (library -> records);
+    # `Self` is abstract (T_Encode), `encode_record` / `encode_records` are its required methods (external)
+    {"name": "gdsw", "out": "KernelsGdsWriteGen.v", "xops": True, "sets": True, "traits": True, "join": True,
+     "files": [("gds21/src/write.rs", {"Encode"}),
+               ("gds21/src/data.rs", {"GdsRecord", "GdsPoint", "GdsPath", "GdsBoundary", "GdsStructRef", "GdsArrayRef", "GdsTextElem", "GdsNode",
+                                      "GdsBox", "GdsStrans", "GdsElemFlags", "GdsPlex", "GdsPresentation", "GdsProperty", "GdsDateTime",
+                                      "GdsDateTimes", "GdsStruct", "GdsLibrary", "GdsElement", "GdsUnits", "Unsupported"})],
+     "alias_only": set(), "prelude": "",
+     "targets": [("gds_write", "Encode::encode_strans"), ("gds_write", "Encode::encode_boundary"), ("gds_write", "Encode::encode_path"),
+                 ("gds_write", "Encode::encode_struct_ref"), ("gds_write", "Encode::encode_array_ref"), ("gds_write", "Encode::encode_text_elem"),
+                 ("gds_write", "Encode::encode_node"), ("gds_write", "Encode::encode_box"), ("gds_write", "Encode::encode_element"),
+                 ("gds_write", "Encode::encode_datetimes"), ("gds_write", "Encode::encode_struct"), ("gds_write", "Encode::encode_lib")],
+     "generic_inst": {}, "foreign": {"String", "Encode"}, "aliases": {"str": "String"},
+     "extern": set(), "result_aliases": {"GdsResult"}, "skip_recv": set()},
+    # gds21/src/read.rs: GdsReader (record level; the byte-level reads of `self.source` are external) and GdsParser (records -> library).
+    # Both are read with MONADIC SELF: the reader / parser object is the state of the effect M.
+    {"name": "gdsr", "out": "KernelsGdsReadGen.v", "xops": True, "sets": True, "traits": True, "join": True,
+     "self_state": {"GdsReader", "GdsParser"}, "fail_methods": {"fail", "invalid"},
+     "recv_methods": {"self.source": "source_"},
+     "files": [("gds21/src/read.rs", {"GdsReader", "GdsParser"}),
+               ("gds21/src/data.rs", {"GdsRecord", "GdsRecordType", "GdsDataType", "GdsRecordHeader", "GdsPoint", "GdsPath", "GdsBoundary", "GdsStructRef",
+                                      "GdsArrayRef", "GdsTextElem", "GdsNode", "GdsBox", "GdsStrans", "GdsElemFlags", "GdsPlex", "GdsPresentation",
+                                      "GdsProperty", "GdsDateTime", "GdsDateTimes", "GdsStruct", "GdsLibrary", "GdsElement", "GdsUnits", "Unsupported"})],
+     "alias_only": set(), "prelude": GDSR_PRELUDE,
+     "targets": [("gds_read", "GdsRecordType::valid"), ("gds_read", "GdsReader::read_record_header"), ("gds_read", "GdsReader::read_record_content"),
+                 ("gds_read", "GdsReader::read_record")],
+     "generic_inst": {}, "foreign": {"String"}, "aliases": {"str": "String"},
+     "extern": {"GdsReader::read_str", "GdsReader::read_bytes", "GdsReader::read_i16", "GdsReader::read_i32", "GdsReader::read_f64"},
+     "result_aliases": {"GdsResult"}, "skip_recv": {"self.ctx"}},
 ]
 
 INT_TAG = {"isize": "Isize", "usize": "Usize", "i128": "I128", "u64": "U64", "i64": "I64", "i32": "I32", "u32": "U32",
-           "i16": "I16", "u8": "U8"}
+           "i16": "I16", "u8": "U8", "u16": "U16"}
 RESERVED = {"M", "F", "I", "ops", "fst", "snd", "negb", "andb", "orb", "Some", "None", "true", "false", "tt", "nil", "cons",
             "list", "option", "bool", "unit", "Z", "pair", "fix", "end", "in", "at", "as", "match", "exists", "fun", "let",
             "if", "then", "else", "return", "with", "Type", "Set", "Prop", "forall", "struct", "where", "using", "Brk", "Cont",
@@ -419,7 +463,7 @@ class World:
                 v.clash = False
                 self.fns[k] = v; self.fn_src[k] = rel
             return
-        for f in out["allfns"]:
+        for f in out["allfns"] + (out.get("traitfns", []) if self.unit.get("traits") else []):
             if only is not None and f.name.split("::")[0] not in only:
                 continue
             f.clash = False
@@ -841,13 +885,47 @@ def rename_shadowing_loops(node, bound, counter):
         for x in node:
             rename_shadowing_loops(x, bound, counter)
 
+def self_name(ty):
+    """the name of the type of an impl (`GdsReader` for `impl<R> GdsReader<R>`)"""
+    if ty is None:
+        return None
+    if ty[0] in ("named", "gen"):
+        return ty[1]
+    return None
+
+def is_fail_return(body, fail_methods):
+    """is this arm body `return Err(..)` / `return self.fail(..)` (possibly in a block)?"""
+    b = body
+    if b.kind == "block" and len(b.stmts) == 1:
+        b = b.stmts[0]
+        if b.kind == "exprstmt":
+            b = b.e
+    if b.kind != "return" or b.e is None:
+        return False
+    r = b.e
+    if r.kind == "call" and r.path == ["Err"]:
+        return True
+    if r.kind == "mcall" and r.recv.kind == "path" and r.recv.segs == ["self"] and r.name in fail_methods:
+        return True
+    return False
+
 class FnGen:
     def __init__(self, tr, fn):
         self.tr, self.w, self.fn = tr, tr.w, fn
         self.unit = tr.unit
         self.x = bool(self.unit.get("xops"))
         self.ctx = self.w.fn_ctx(fn) if self.x else Ctx(fn.self_ty)
-        self.self_ty = self.w.resolve(fn.self_ty, self.ctx) if fn.self_ty is not None else None
+        self.mon_name = self_name(fn.self_ty) if self_name(fn.self_ty) in tr.unit.get("self_state", ()) else None
+        if self.mon_name is not None:
+            try:
+                self.self_ty = self.w.resolve(fn.self_ty, self.ctx)
+            except Unsupported:
+                self.self_ty = None
+        else:
+            self.self_ty = self.w.resolve(fn.self_ty, self.ctx) if fn.self_ty is not None else None
+        self.fail_methods = set(tr.unit.get("fail_methods", ())) | {"fail"}
+        self.use_names = {}
+        self.arr_hint = None
         self.tmp = 0
         self.aux = []
         self.nloop = 0
@@ -1001,6 +1079,10 @@ class FnGen:
                 if e.idx.kind != "int" or e.idx.val not in (0, 1) or b.ty[2] != 2:
                     self.err(e, "index into a fixed array must be the literal 0 or 1 of a [T; 2]")
                 return self.seq([b], lambda ns: Val("P", "(%s %s)" % ("fst" if e.idx.val == 0 else "snd", ns[0]), b.ty[1]))
+            if b.ty is not None and b.ty[0] == "vec" and e.idx.kind == "range":
+                lo, hi = self.range_lits(e.idx)
+                self.tr.need_l = True
+                return self.seq([b], lambda ns: Val("M", "(k_slice ops %s %d %d)" % (ns[0], lo, hi), b.ty))
             if b.ty is not None and b.ty[0] == "vec":
                 i = self.ex(e.idx, env, ("int", "usize"))
                 if i.ty != ("int", "usize"):
@@ -1047,6 +1129,9 @@ class FnGen:
                 return self.seq([a], lambda ns: Val("M", "(i_cast ops %s %s %s)" % (tag(a.ty), tag(to), ns[0]), to))
             if a.ty == to:
                 return a
+            if self.sets and a.ty == ("bool",) and to[0] == "int":
+                tag(to)     # `b as u8`: 1 for true, 0 for false
+                return self.seq([a], lambda ns: Val("P", "(if %s then (i_lit ops 1) else (i_lit ops 0))" % ns[0], to))
             self.err(e, "cast from %r to %r" % (a.ty, to))
         if k == "call":
             return self.ex_call(e, env, expect)
@@ -1068,6 +1153,24 @@ class FnGen:
                 v = self.ex(x, env, elt)
                 elt = self.same(elt, v.ty, e, "array literal")
                 vs.append(v)
+            return self.seq(vs, lambda ns: Val("P", "(" + " :: ".join(ns + ["nil"]) + ")", ("vec", elt)))
+        if k == "repeat" and self.unit.get("join"):
+            elt = expect[1] if (expect is not None and expect[0] in ("vec", "arr")) else None
+            v = self.ex(e.e, env, elt)
+            if v.ty is None:
+                self.err(e, "`[x; n]` of a diverging expression")
+            if e.n == 2 and not (expect is not None and expect[0] == "vec"):
+                return self.seq([v], lambda ns: Val("P", "(%s, %s)" % (ns[0], ns[0]), ("arr", v.ty, 2)))
+            return self.seq([v], lambda ns: Val("P", "(List.repeat %s %d)" % (ns[0], e.n), ("vec", v.ty)))
+        if k == "array" and self.unit.get("join") and len(e.es) != 2 and (expect is None or expect[0] == "vec"):
+            elt = expect[1] if expect is not None else None
+            vs = []
+            for x in e.es:
+                v = self.ex(x, env, elt)
+                elt = self.same(elt, v.ty, e, "array literal")
+                vs.append(v)
+            if elt is None:
+                self.err(e, "cannot type an empty array literal")
             return self.seq(vs, lambda ns: Val("P", "(" + " :: ".join(ns + ["nil"]) + ")", ("vec", elt)))
         if k == "array":
             elt = expect[1] if (expect is not None and expect[0] == "arr") else None
@@ -1248,7 +1351,10 @@ class FnGen:
                 self.err(node, "%s::%s takes %d arguments" % (en, vn, len(tys)))
             exprs, pos = list(given), list(range(len(tys)))
         vals = []
+        raw = [v_ for v_ in self.w.enums[en] if v_[0] == vn][0][2]
         for x, i in zip(exprs, pos):
+            rt_ = raw[i][1] if kind == "struct" else raw[i]
+            self.arr_hint = rt_[2] if (rt_ is not None and rt_[0] == "arr") else None
             if tys[i] == ("opaque",):
                 if not self.skippable(x):
                     self.err(node, "argument %d of %s::%s has a type outside the subset and is not a plain string expression" % (i, en, vn))
@@ -1267,6 +1373,8 @@ class FnGen:
         if v.ty is not None and v.ty[0] == "tryres":
             fr, to = v.ty[1], v.ty[2]
             return self.seq([Val(v.kind, v.term, fr)], lambda ns: Val("M", "(i_try_from_q xops %s %s %s)" % (tag(fr), tag(to), ns[0]), to))
+        if v.ty is not None and v.ty[0] == "tryarr":
+            return self.seq([Val(v.kind, v.term, v.ty[1])], lambda ns: Val("M", "(k_vec_into_arr_q xops %d %s)" % (v.ty[2], ns[0]), v.ty[1]))
         if v.ty is None or v.ty[0] != "res":
             self.err(e, "`?` on a value of type %r" % (v.ty,))
         return Val("M", v.term, v.ty[1], fail=v.fail)
@@ -1346,6 +1454,8 @@ class FnGen:
                 return Val("P", mangle(nm), env[nm])
             if self.x and nm == "None":
                 return Val("P", "None", ("opt", None))
+            if nm in self.use_names and self.use_names[nm] in self.w.enums:
+                return self.variant_value(self.use_names[nm], nm, [], [], env, e)
             self.err(e, "unknown name %s" % nm)
         if self.x and len(segs) == 2:
             en = segs[0]
@@ -1480,8 +1590,12 @@ class FnGen:
             vals.append(recv_val); pi = 1
         if len(params) - pi != len(args_nodes):
             self.err(node, "%s takes %d arguments, %d given" % (f.name, len(params) - pi, len(args_nodes)))
+        raw_ps = [q for q in f.params if q[0] != "self"]
         for i, ((pn, pt), a) in enumerate(zip(params[pi:], args_nodes)):
+            if i < len(raw_ps) and raw_ps[i][1] is not None and raw_ps[i][1][0] == "arr":
+                self.arr_hint = raw_ps[i][1][2]
             v = arg_vals[i] if arg_vals is not None else self.ex(a, env, pt)
+            self.arr_hint = None
             self.same(pt, v.ty, node, "argument %s of %s" % (pn, f.name))
             vals.append(v)
         if self.is_extern(f):
@@ -1536,10 +1650,13 @@ class FnGen:
             return Val("P", "nil", expect if (expect is not None and expect[0] == "vec") else ("vec", None))
         if self.sets and len(segs) == 2 and segs[0] in ("Vec", "HashSet", "HashMap") and segs[1] in ("new", "with_capacity") \
                 and len(e.args) == (1 if segs[1] == "with_capacity" else 0):
+            cap = None
             if e.args:
                 c = self.ex(e.args[0], env, ("int", "usize"))
                 if c.kind != "P":
-                    self.err(e, "the capacity of %s::with_capacity must be an expression without effects" % segs[0])
+                    if not self.unit.get("traits"):
+                        self.err(e, "the capacity of %s::with_capacity must be an expression without effects" % segs[0])
+                    cap = c       # evaluated for its effect (an overflow of the arithmetic), the value is not used
             kind = {"Vec": "vec", "HashSet": "hset", "HashMap": "hmap"}[segs[0]]
             if expect is None:
                 expect = getattr(self, "hint_ty", None)      # `let x = HashMap::new();`: the type of the field / parameter x goes to
@@ -1547,6 +1664,8 @@ class FnGen:
                 self.err(e, "the element type of this %s::%s() cannot be determined here (annotate the `let`)" % (segs[0], segs[1]))
             self.note_struct(expect)
             if kind == "vec":
+                if cap is not None:
+                    return self.seq([cap], lambda ns: Val("P", "nil", expect))
                 return Val("P", "nil", expect)
             return Val("P", "(%s_empty %s)" % ("ks" if kind == "hset" else "km", opsvar(expect)), expect)
         if self.sets and segs == ["Ptr", "clone"] and len(e.args) == 1:
@@ -1589,6 +1708,11 @@ class FnGen:
         if self.x and len(segs) > 2 and all(x[:1].islower() for x in segs[:-2]):
             # `lef21::LefDecimal::from`: module qualifiers of a function path are dropped
             segs = segs[-2:]
+            e = N("call", e.line, path=segs, args=e.args)
+        if self.unit.get("join") and len(segs) == 2 and segs[0] == "FromPrimitive" and expect is not None and expect[0] == "opt" \
+                and expect[1] is not None and expect[1][0] == "enum":
+            # num_traits::FromPrimitive: the impl is chosen by the type the value goes to
+            segs = [expect[1][1], segs[1]]
             e = N("call", e.line, path=segs, args=e.args)
         if len(segs) == 2 and segs[1] == "try_from" and len(e.args) == 1:
             to = self.res(("named", segs[0]) if segs[0] not in INT_TAG else ("int", segs[0]), e)
@@ -1633,12 +1757,23 @@ class FnGen:
                 return self.emit_call(hit[0], e.args, None, env, e, arg_vals=[a])
         return self.emit_call(self.callee(qn, e), e.args, None, env, e)
 
-    TRANSPARENT = ("iter", "iter_mut", "into_iter", "as_ref", "as_mut", "to_owned", "borrow", "borrow_mut", "deref", "as_slice")
+    TRANSPARENT = ("iter", "iter_mut", "into_iter", "as_ref", "as_mut", "to_owned", "borrow", "borrow_mut", "deref", "as_slice", "to_vec")
 
     def ex_mcall(self, e, env, expect):
         name = e.name
-        if self.x and name == "fail" and e.recv.kind == "path" and e.recv.segs == ["self"]:
+        rm = self.unit.get("recv_methods")
+        if rm and place_text(e.recv) in rm:
+            # `self.source.read_u8()`: a method of a field whose type is outside the subset is a method of self, declared in the prelude
+            e = N("mcall", e.line, recv=N("path", e.line, segs=["self"]), name=rm[place_text(e.recv)] + name, args=e.args, turbo=e.turbo)
+            name = e.name
+        if self.x and name in self.fail_methods and e.recv.kind == "path" and e.recv.segs == ["self"]:
             return self.fail_val()
+        if self.mon_name is not None and e.recv.kind == "path" and e.recv.segs == ["self"]:
+            # monadic self: the receiver is the state of the effect; the method takes no self argument
+            f = self.w.fns.get("%s::%s" % (self.mon_name, name))
+            if f is None or f.clash:
+                self.err(e, "call of self.%s, which is not a (uniquely defined) method of %s in the translated files" % (name, self.mon_name))
+            return self.emit_call(f, e.args, None, env, e)
         if self.x and name == "assert" and e.recv.kind == "path" and e.recv.segs == ["self"] and len(e.args) == 2 and self.skippable(e.args[1]):
             # ErrorHelper::assert(cond, msg): Ok(()) when cond holds, else the error
             c = self.ex(e.args[0], env, ("bool",))
@@ -1652,7 +1787,13 @@ class FnGen:
                 self.err(e, "self.unwrap on a value of type %r" % (o.ty,))
             return self.seq([o], lambda ns: Val("M", "(match %s with Some x__ => %s | None => (k_fail xops) end)" % (ns[0], self.ret("x__")), ("res", o.ty[1])))
         if self.x and name == "try_into" and not e.args:
+            hint_n = self.arr_hint
             r = self.ex(e.recv, env)
+            if self.unit.get("join") and r.ty is not None and r.ty[0] == "vec":
+                # Vec<T> -> [T; N]: N is read off the declared type of the place the value goes to
+                if hint_n is None:
+                    self.err(e, ".try_into() of a Vec: the length of the target array is not known here")
+                return Val(r.kind, r.term, ("tryarr", r.ty, hint_n))
             to = expect[1] if (expect is not None and expect[0] == "res") else None
             if to is None:
                 to = getattr(self, "hint_ty", None)
@@ -1673,12 +1814,20 @@ class FnGen:
                 b = self.ex(e.recv.args[0].body, env2)
                 if b.ty is not None and b.ty[0] == "res":
                     return self.seq([base], lambda ns: Val("M", "(k_map_m ops (fun %s => %s) %s)" % (mangle(cp.name), b.term, ns[0]), ("res", ("vec", b.ty[1]))))
-        r = self.ex(e.recv, env)
+        if self.unit.get("join") and name == "ok_or" and len(e.args) == 1 and expect is not None and expect[0] == "res" and expect[1] is not None:
+            r = self.ex(e.recv, env, ("opt", expect[1]))
+        else:
+            r = self.ex(e.recv, env)
         ty = r.ty
         if ty is None:
             self.err(e, "method call on a diverging expression")
         if name == "clone" and not e.args:
             return r
+        if self.unit.get("join") and ty[0] == "tryarr":
+            if name != "unwrap":
+                self.err(e, "only `.unwrap()` / `?` may follow a Vec's try_into")
+            self.tr.need_l = True
+            return self.seq([Val(r.kind, r.term, ty[1])], lambda ns: Val("M", "(k_vec_into_arr xops %d %s)" % (ty[2], ns[0]), ty[1]))
         if self.sets and name == "unwrapper" and len(e.args) == 2 and e.args[0].kind == "path" and e.args[0].segs == ["self"] and self.skippable(e.args[1]):
             # layout21utils Unwrapper: an Option's None / a Result's Err becomes the helper's error
             if ty[0] == "opt":
@@ -1901,6 +2050,7 @@ class FnGen:
                 return r
         if k == "let":
             expect = self.res(s.ty, s) if s.ty is not None else None
+            self.arr_hint = s.ty[2] if (s.ty is not None and s.ty[0] == "arr") else None
             if self.x and expect is None and s.pat.kind == "pvar":
                 # `let x = e.try_into()?;`: the target type is that of the parameter x is passed to
                 self.hint_ty = self.infer_from_use(s.pat.name, rest, env)
@@ -1911,10 +2061,19 @@ class FnGen:
                         t_ = t_.args[0]
                     if t_.kind == "path" and t_.segs == [s.pat.name] and K.ret_ty is not None:
                         self.hint_ty = Translator.plain(K.ret_ty)
+                if self.unit.get("join") and self.hint_ty is None and rest and rest[-1].kind == "return" and rest[-1].e is not None \
+                        and rest[-1].e.kind == "path" and rest[-1].e.segs == [s.pat.name] and K.ret_ty is not None:
+                    self.hint_ty = Translator.plain(K.ret_ty)
+                if self.unit.get("join") and self.hint_ty is not None and s.init.kind == "repeat":
+                    expect = self.hint_ty
                 if self.sets and self.hint_ty is not None and s.init.kind in ("match", "block", "if"):
                     expect = self.hint_ty       # the value of the block flows into x
+            if self.unit.get("join") and expect is None and self.hint_ty is not None and s.init.kind == "try" and s.init.e.kind == "mcall" \
+                    and s.init.e.name == "ok_or":
+                expect = self.hint_ty
             v = self.ex(s.init, env, expect)
             self.hint_ty = None
+            self.arr_hint = None
             if expect is not None:
                 self.same(expect, v.ty, s, "let")
             if v.ty is None:
@@ -1944,6 +2103,8 @@ class FnGen:
         if k == "use" and self.sets:
             if s.glob:
                 self.glob_enums.add(s.segs[-1])       # `use E::*;`: the variants of E may be written without `E::`
+            for n_ in getattr(s, "names", None) or []:
+                self.use_names[n_] = s.segs[-1]       # `use E::{A, B};`
             return self.stmts(rest, env, K)
         if k == "while" and self.sets:
             return self.while_(s, rest, env, K)
@@ -2117,6 +2278,16 @@ class FnGen:
         c = e.e if tried else e
         if c.kind == "mcall" and c.name == "unwrapper" and len(c.args) == 2 and self.skippable(c.args[1]) and c.recv.kind in ("mcall", "call"):
             c = c.recv          # `x.f(..).unwrapper(self, msg)?`: the error is converted, the value is that of the call
+        if c.kind == "mcall" and not tried and c.name == "copy_from_slice" and len(c.args) == 1 and self.unit.get("join"):
+            t = self.place_ty(c.recv, env)
+            if t is not None and t[0] == "vec":
+                cur = self.ex(c.recv, env)
+                a = self.ex(c.args[0], env, t)
+                self.same(t, a.ty, c, ".copy_from_slice")
+                self.tr.need_l = True
+                newv = self.seq([cur, a], lambda ns: Val("M", "(k_copy_from_slice ops %s %s)" % (ns[0], ns[1]), t))
+                return self.store(c.recv, newv, rest, env, K, s)
+            return None
         if c.kind == "mcall" and not tried and c.name == "extend" and len(c.args) == 1:
             t = self.place_ty(c.recv, env)
             if t is not None and t[0] == "vec":
@@ -2201,7 +2372,7 @@ class FnGen:
             return acc
         def walk(n):
             if isinstance(n, N):
-                if n.kind == "mcall" and n.name in ("remove", "extend"):
+                if n.kind == "mcall" and n.name in ("remove", "extend", "copy_from_slice"):
                     r = lvalue_root(n.recv)
                     if r:
                         acc.append(r)
@@ -2249,6 +2420,43 @@ class FnGen:
         if clash:
             self.err(node, "the names %s are bound inside a branch and used after it (shadowing across the branch is outside the subset)" % sorted(clash))
 
+    def joinable(self, branches):
+        """fourth part of the subset: an `if` / `if let` / `match` in statement position whose branches leave neither the function
+        nor a loop (`return`, `break`, `continue`) is translated ONCE and joined with the rest of the block through the tuple of
+        the locals it assigns (instead of taking the rest into every branch)"""
+        return bool(self.unit.get("join")) and not any(has_kind(b, k) for b in branches for k in ("return", "break", "continue"))
+
+    def join_(self, e, branches, rest, env, K):
+        """the branching statement e (an `if` or a `match` whose branches are the statement lists `branches`) followed by rest"""
+        inner = [x for b in branches for x in b]
+        bound = let_names(inner, set())
+        if e.kind == "if" and e.letvar:
+            bound = bound | {e.letvar}
+        state = []
+        for r in self.assigned_x(inner):
+            if r in env and r not in state and (r not in bound or r in names_used(rest, set()) or r in self.mut_params):
+                if env[r] is not None and env[r][0] == "alias":
+                    self.err(e, "assignment through the `&mut` alias %s inside a branch that is joined" % r)
+                state.append(r)
+        kj = KJoin(self, state)
+        if e.kind == "if":
+            v = self.if_(N("if", e.line, letvar=e.letvar, letpat=getattr(e, "letpat", None), cond=e.cond, then=N("block", e.line, stmts=branches[0]),
+                           els=N("block", e.line, stmts=branches[1])), None, env, kj)
+        else:
+            v = self.match_(e, None, env, kj, joined=True)
+        tys = [env[n] for n in state]
+        if not state:
+            pat, ty = N("pwild", e.line), ("unit",)
+        elif len(state) == 1:
+            pat, ty = N("pvar", e.line, name=state[0]), tys[0]
+        else:
+            pat, ty = N("ptup", e.line, pats=[N("pvar", e.line, name=n) for n in state]), ("tup", tuple(tys))
+        if any(n in self.mut_params for n in state):
+            self.mut_self = True
+        if v.ty is None and v.kind == "M":
+            return v
+        return self.let_(pat, Val("M", self.toM(v), ty), lambda env2: self.stmts(rest, env2, K), env, e)
+
     def if_(self, e, rest, env, K):
         """`if` whose continuation is `rest` (None: the if is the value of the block)"""
         if self.sets and e.letvar is None and getattr(e, "letpat", None) is None:
@@ -2263,6 +2471,8 @@ class FnGen:
             then, els = self.as_stmts(then), self.as_stmts(els)
         elif e.els is None:
             then = self.as_stmts(then)
+        if rest and not tail and self.joinable([then, els]):
+            return self.join_(e, [then, els], rest, env, K)
         self.no_capture(then, rest, e)
         self.no_capture(els, rest, e)
         if getattr(e, "letpat", None) is not None:
@@ -2273,9 +2483,18 @@ class FnGen:
             c = self.ex(e.cond, env)
             if c.ty is None or c.ty[0] != "opt":
                 self.err(e, "`if let Some(..)` on a value of type %r" % (c.ty,))
-            env2 = dict(env); env2[e.letvar] = c.ty[1]
             if e.letvar in names_used(rest, set()) and e.letvar in env and rest:
-                self.err(e, "`if let` shadows %s, which is used after the if" % e.letvar)
+                if not self.unit.get("traits"):
+                    self.err(e, "`if let` shadows %s, which is used after the if" % e.letvar)
+                # the rest of the block goes into the branch: the bound name gets a fresh one inside the branch
+                self.nhoist += 1
+                new = "%s__s%d" % (e.letvar, self.nhoist)
+                rename_var(e.then, e.letvar, new)
+                e.letvar = new
+                then = list(e.then.stmts)
+                if not tail or e.els is None:
+                    then = self.as_stmts(then)
+            env2 = dict(env); env2[e.letvar] = c.ty[1]
             a = self.stmts(then + rest, env2, K)
             b = self.stmts(els + rest, env, K)
             ty = self.same(a.ty, b.ty, e, "branches of if let")
@@ -2383,6 +2602,10 @@ class FnGen:
         k = p.kind
         if k == "pwild":
             return "_", ("w",)
+        if k == "pvar" and p.name in self.use_names and ty is not None and ty == ("enum", self.use_names[p.name]) \
+                and any(v_[0] == p.name for v_ in self.w.enums[ty[1]]):
+            # a bare identifier that `use E::{..}` made a variant of E
+            return self.pat(N("ppath", p.line, segs=[ty[1], p.name]), ty, env2, node, top)
         if k == "pvar":
             env2[p.name] = ty
             return mangle(p.name), ("w",)
@@ -2441,7 +2664,7 @@ class FnGen:
                     pass
                 if al != ty:
                     self.err(node, "pattern %s against the enum %s" % ("::".join(segs), en))
-            if head is None and not (en in self.glob_enums and any(v[0] == segs[0] for v in self.w.enums[en])):
+            if head is None and not ((en in self.glob_enums or self.use_names.get(segs[0]) == en) and any(v[0] == segs[0] for v in self.w.enums[en])):
                 self.err(node, "pattern %s against the enum %s (write the variant with its enum)" % (segs[0], en))
             vkind, tys, names = self.tr.variant(en, segs[-1], node, self)
             if k == "ppath":
@@ -2480,15 +2703,21 @@ class FnGen:
                 return "(mk_g%s%s)" % (sn, "".join(" " + c for c in cs)), ("c", "mk", ns)
         self.err(node, "pattern of kind %s against the type %r" % (k, ty))
 
-    def match_(self, e, rest, env, K, value=False):
+    def match_(self, e, rest, env, K, value=False, joined=False):
         """`match` whose continuation is `rest` (None: the match is the value of the block / of the expression)"""
-        tail = rest is None
+        tail = rest is None and not joined
         rest = rest or []
+        if self.unit.get("join"):
+            e = self.prep_match(e)
+        if rest and not tail and not value:
+            arms_ = [self.as_stmts(list(b.stmts)) if b.kind == "block" else [N("exprstmt", b.line, e=b, semi=True)] for _, _, b in e.arms]
+            if self.joinable(arms_):
+                return self.join_(e, arms_, rest, env, K)
         sc = self.ex(e.scrut, env)
         if sc.ty is None:
             self.err(e, "match on a diverging expression")
-        if sc.ty[0] in ("res", "tryres"):
-            self.err(e, "match on a Result is outside the subset (use `?`)")
+        if sc.ty[0] in ("res", "tryres", "tryarr"):
+            self.err(e, "match on a Result is outside the subset (use `?`; with Ok / Err arms only when every Err arm returns an error)")
         used_after = names_used(rest, set())
         arms = []
         for pat, guard, body in e.arms:
@@ -2538,26 +2767,86 @@ class FnGen:
                         out.append("| %s => %s" % (comp[j][0], body(comp[j][3])))
                         rows.append([comp[j][1]])
                     j += 1
+                thunk = None
                 if j < len(comp):
                     cp, norm, g, v = comp[j]
                     if useful(rows, [norm], tys, self.ctors_of):
+                        nxt = gen(j + 1)
+                        if self.unit.get("join") and not pure:
+                            # the later arms are written ONCE, behind a name (a function of unit: nothing of them runs before it is called);
+                            # the names are bound in front of the whole match, the last arms first
+                            self.tmp += 1
+                            thunks.append(("k__%d" % self.tmp, nxt))
+                            nxt = "(k__%d tt)" % self.tmp
                         if g.kind == "P":
-                            out.append("| %s => (if %s then %s else %s)" % (cp, g.term, body(v), gen(j + 1)))
+                            out.append("| %s => (if %s then %s else %s)" % (cp, g.term, body(v), nxt))
                         else:
-                            out.append("| %s => (k_bind ops %s (fun g__ => if g__ then %s else %s))" % (cp, g.term, body(v), gen(j + 1)))
+                            out.append("| %s => (k_bind ops %s (fun g__ => if g__ then %s else %s))" % (cp, g.term, body(v), nxt))
                         if useful(rows + [[norm]], [("w",)], tys, self.ctors_of):
-                            out.append("| _ => %s" % gen(j + 1))
+                            out.append("| _ => %s" % nxt)
                 elif useful(rows, [("w",)], tys, self.ctors_of):
                     if pure:
                         self.err(e, "the arms of this match are not exhaustive as read by the translator")
                     out.append("| _ => (k_panic ops)")
                 memo[i] = "(match %s with %s end)" % (st, " ".join(out))
                 return memo[i]
+            thunks = []
             term = gen(0)
-            if prefix is not None:
+            for kn, kb in reversed(thunks):
+                term = "(let %s := (fun _ : unit => %s) in %s)" % (kn, kb, term)
+            if prefix is not None and self.unit.get("join"):
+                # (a `let`-bound scrutinee makes Coq's compilation of the nested matches explode: bound by a function instead)
+                term = "((fun %s => %s) %s)" % (prefix[0], term, prefix[1])
+            elif prefix is not None:
                 term = "(let %s := %s in %s)" % (prefix[0], prefix[1], term)
             return Val("P" if pure else "M", term, ty)
         return self.seq([sc], build)
+
+    def prep_match(self, e):
+        """fourth part of the subset: (1) a match on a Result whose `Err(..)` arms all leave the function with an error is the match
+        of the value under `?`; (2) an integer literal inside a pattern becomes a fresh name with the guard `name == literal`"""
+        if getattr(e, "prepped", False):
+            return e
+        arms = list(e.arms)
+        scrut = e.scrut
+        def head(p):
+            return p.segs if p.kind == "pts" and len(p.pats) == 1 and not p.rest else None
+        if arms and all(head(p) in (["Ok"], ["Err"]) for p, _, _ in arms) and any(head(p) == ["Err"] for p, _, _ in arms):
+            if all(is_fail_return(b, self.fail_methods) and g is None for p, g, b in arms if head(p) == ["Err"]):
+                arms = [(p.pats[0], g, b) for p, g, b in arms if head(p) == ["Ok"]]
+                scrut = N("try", e.line, e=scrut)
+        def lits(p, acc):
+            if p.kind == "plit" and not isinstance(p.val, bool):
+                self.nhoist += 1
+                nm = "lit__%d" % self.nhoist
+                acc.append((nm, p))
+                return N("pvar", p.line, name=nm)
+            if p.kind in ("ptup", "pts"):
+                q = N(p.kind, p.line, **{k_: v_ for k_, v_ in p.__dict__.items() if k_ not in ("kind", "line")})
+                q.pats = [lits(x, acc) for x in p.pats]
+                return q
+            if p.kind == "pstruct":
+                q = N(p.kind, p.line, **{k_: v_ for k_, v_ in p.__dict__.items() if k_ not in ("kind", "line")})
+                q.fields = [(f_, lits(x, acc)) for f_, x in p.fields]
+                return q
+            if p.kind == "por":
+                acc2 = []
+                q = N(p.kind, p.line, alts=[lits(x, acc2) for x in p.alts])
+                if acc2:
+                    self.err(e, "an integer literal inside an or-pattern is outside the subset")
+                return q
+            return p
+        out = []
+        for p, g, b in arms:
+            acc = []
+            p2 = lits(p, acc)
+            for nm, lit in acc:
+                c = N("bin", lit.line, op="==", l=N("path", lit.line, segs=[nm]), r=N("int", lit.line, val=lit.val, suffix=lit.suffix))
+                g = c if g is None else N("bin", lit.line, op="&&", l=c, r=g)
+            out.append((p2, g, b))
+        e2 = N("match", e.line, scrut=scrut, arms=out)
+        e2.prepped = True
+        return e2
 
     def update(self, lhs, newterm, env):
         """(root name, term for the new value of the root) for the assignment of newterm to the place lhs"""
@@ -2635,6 +2924,11 @@ class FnGen:
             return Val(r.kind, "(let %s := %s in %s)" % (mangle(rname), upd, r.term), r.ty)
         return self.seq([newv], build)
 
+    def range_lits(self, r):
+        if not (r.lo.kind == "int" and r.hi.kind == "int" and self.unit.get("join")):
+            self.err(r, "a sub-slice `v[a..b]` is in the subset with literal bounds only")
+        return r.lo.val, r.hi.val
+
     def subst_root(self, lhs, place):
         if lhs.kind == "path":
             return place
@@ -2670,6 +2964,11 @@ class FnGen:
                     self.err(lhs, "assignment to an index other than the literal 0 or 1 of a [T; 2]")
                 nb = "(%s, (snd %s))" % (newterm, base.term) if lhs.idx.val == 0 else "((fst %s), %s)" % (base.term, newterm)
                 return self.upd(lhs.e, nb, env)
+            if base.ty is not None and base.ty[0] == "vec" and lhs.idx.kind == "range":
+                lo, hi = self.range_lits(lhs.idx)
+                self.tr.need_l = True
+                setv = self.seq([base], lambda ns: Val("M", "(k_splice ops %s %d %d %s)" % (ns[0], lo, hi, newterm), base.ty))
+                return self.seq([setv], lambda ns: self.upd(lhs.e, ns[0], env))
             if base.ty is not None and base.ty[0] == "vec":
                 i = self.ex(lhs.idx, env, ("int", "usize"))
                 if i.ty != ("int", "usize"):
@@ -2815,6 +3114,21 @@ class KValue:
         if v is not None and v.fail:
             return Val("M", v.term, None, fail=True)     # `return Err(..)`: the error leaves the function from anywhere
         raise Unsupported("%s: in fn %s: `return` inside a block that is used as a value" % (self.g.fn.fname, self.g.fn.name))
+
+class KJoin:
+    """end of a branch of an `if` / `match` that is joined with the rest of its block: the locals the branches assign"""
+    def __init__(self, g, state):
+        self.g, self.val_ty, self.ret_ty, self.state = g, None, None, state
+    def end(self, v, env):
+        st = "tt" if not self.state else "(" + ", ".join(mangle(n) for n in self.state) + ")" if len(self.state) > 1 else mangle(self.state[0])
+        ty = ("unit",) if not self.state else ("tup", tuple(env[n] for n in self.state)) if len(self.state) > 1 else env[self.state[0]]
+        if v is not None and v.kind == "M":
+            if v.ty is None:
+                return v
+            return Val("M", "(k_bind ops %s (fun _ => (k_ret ops %s)))" % (v.term, st), ty)
+        return Val("P", st, ty)
+    def ret(self, v, env):
+        raise Unsupported("%s: in fn %s: `return` inside a branch that is joined" % (self.g.fn.fname, self.g.fn.name))
 
 class KFn:
     """end of the function body"""
@@ -2991,9 +3305,12 @@ class Translator:
             raise Unsupported("%s: return type outside the subset (%s)" % (where, f.ret_bad))
         ctx = self.w.fn_ctx(f) if self.x else Ctx(f.self_ty)
         ps, mut_self, mut_others = [], False, []
+        monadic = self_name(f.self_ty) in self.unit.get("self_state", ())
         for pn, pt, m in f.params:
             if pn is None:
                 raise Unsupported("%s: a parameter type is outside the subset" % where)
+            if pn == "self" and monadic:
+                continue        # the receiver is the state of the effect M
             if pn == "self":
                 if f.self_ty is None:
                     raise Unsupported("%s: self outside an impl" % where)
@@ -3071,7 +3388,7 @@ class Translator:
             if isinstance(n, N):
                 if n.kind == "assign" and n.lhs.kind != "tuple" and lvalue_root(n.lhs) == name:
                     return True
-                if n.kind == "mcall" and n.name in MUTATORS + ("remove",) and lvalue_root(n.recv) == name and place_text(n.recv) not in skip:
+                if n.kind == "mcall" and n.name in MUTATORS + ("remove", "copy_from_slice") and lvalue_root(n.recv) == name and place_text(n.recv) not in skip:
                     return True
                 if n.kind == "mcall" and n.recv.kind == "path" and n.recv.segs == [name]:
                     # a method called on the borrowed value itself: a `&mut self` method of the sources changes it
@@ -3308,7 +3625,7 @@ def run_unit(unit):
              "    external and types of other crates are the Section variables ext_* / T_*. The translation scheme is",
              "    described in Base/KernelOps.v, Base/KernelOpsX.v and in the translator. *)",
              "From Coq Require Import ZArith Bool List.",
-             "From L21 Require Import Base.KernelOps Base.KernelOpsX%s." % (" Base.KernelOpsS" if unit.get("sets") else ""),
+             "From L21 Require Import Base.KernelOps Base.KernelOpsX%s%s." % (" Base.KernelOpsS" if unit.get("sets") else "", " Base.KernelOpsL" if unit.get("join") else ""),
              "",
              ]
         if getattr(tr, "need_string", False):
